@@ -348,7 +348,77 @@ def standin_flatten(tier, seed):
 standin_flatten.prop = "C10"
 
 
-STANDINS = [standin_sweeps, standin_resolution, standin_resolve_after_edits, standin_flatten]
+def standin_sample_frames(tier, seed):
+    """Sampler.sample / run_sweep / run_batch over sweepables that expand to SEVERAL sweeps naming the same symbols in different orders: every
+    row (result) is labelled with the assignment the circuit was actually run with — the circuit is deterministic, so the outcome tells"""
+    import cirq
+    import sympy
+
+    rng = random.Random(seed + 5)
+    cases, fails = 0, []
+    names = ["s", "t", "u"]
+    q = cirq.LineQubit.range(3)
+    circ = cirq.Circuit([cirq.X(q[i]) ** sympy.Symbol(n) for i, n in enumerate(names)], [cirq.measure(q[i], key="m" + n) for i, n in enumerate(names)])
+
+    def rand_sweepable():
+        kind = rng.choice(["dicts", "sweeps", "mixed", "resolvers"])
+        def point(order=None):
+            order = order or rng.sample(names, 3)
+            return {n: rng.choice([0, 1]) for n in order}
+        def sweep():
+            order = rng.sample(names, 3)
+            k = rng.choice(["product", "zip", "points-zip-product"])
+            if k == "product":
+                return cirq.Product(*[cirq.Points(n, [rng.choice([0, 1]) for _ in range(rng.randrange(1, 3))]) for n in order])
+            if k == "zip":
+                L = rng.randrange(1, 4)
+                return cirq.Zip(*[cirq.Points(n, [rng.choice([0, 1]) for _ in range(L)]) for n in order])
+            return cirq.Zip(cirq.Points(order[0], [0, 1]), cirq.Points(order[1], [1, 0])) * cirq.Points(order[2], [rng.choice([0, 1])])
+        if kind == "dicts":
+            return [point() for _ in range(rng.randrange(2, 5))]
+        if kind == "resolvers":
+            return [cirq.ParamResolver(point()) for _ in range(rng.randrange(2, 4))]
+        if kind == "sweeps":
+            return [sweep() for _ in range(rng.randrange(2, 4))]
+        return [sweep(), point(), sweep()]
+
+    for it in range(40 if tier == "quick" else 400):
+        sw = rand_sweepable()
+        for sname, sampler in (("Simulator", cirq.Simulator(seed=1)), ("DensityMatrixSimulator", cirq.DensityMatrixSimulator(seed=1)), ("ZerosSampler-free path: StabilizerSampler", cirq.StabilizerSampler(seed=1))):
+            cases += 1
+            try:
+                df = sampler.sample(circ, repetitions=2, params=sw)
+            except Exception as ex:
+                fails.append(dict(args=dict(sampler=sname, params=repr(sw)), failed="sample-raised", clause=f"{type(ex).__name__}: {str(ex)[:160]}"))
+                continue
+            expected_points = [dict(r.param_dict) for r in cirq.to_resolvers(sw)]
+            if len(df) != 2 * len(expected_points):
+                fails.append(dict(args=dict(sampler=sname, params=repr(sw)), failed="sample-rows", clause=f"{len(df)} rows for {len(expected_points)} assignments x 2 repetitions"))
+                continue
+            for i, row in enumerate(df.to_dict("records")):
+                lab = {n: int(row[n]) for n in names}
+                out = {n: int(row["m" + n]) for n in names}
+                want = {str(k): int(v) for k, v in expected_points[i // 2].items()}
+                if lab != out or lab != want:
+                    fails.append(dict(args=dict(sampler=sname, params=repr(sw), row=i), failed="sample-labels",
+                                      clause=f"row {i} is labelled {lab}, its outcomes show the circuit ran with {out}, and the {i // 2}-th assignment of the sweepable is {want}"))
+                    break
+            # run_sweep keeps the same order
+            res = sampler.run_sweep(circ, params=sw, repetitions=1)
+            for r, want_p in zip(res, expected_points):
+                got = {n: int(r.measurements["m" + n][0][0]) for n in names}
+                if got != {str(k): int(v) for k, v in want_p.items()} or {str(k): int(v) for k, v in r.params.param_dict.items()} != got:
+                    fails.append(dict(args=dict(sampler=sname, params=repr(sw)), failed="run_sweep-order", clause=f"a run_sweep result is labelled {dict(r.params.param_dict)} but its outcomes are {got}"))
+                    break
+        if len(fails) >= 4:
+            break
+    return dict(function="cirq-core/cirq/work/sampler.py:Sampler.sample / run_sweep[assignment labels]", case="sample-frames",
+                bound="seeded sweepables (lists of dicts / resolvers / products / zips over 3 symbols listed in random orders) x 3 samplers x a deterministic 3-qubit circuit", cases=cases,
+                distinct=cases, failures=len(fails), exhaustive=False, _fails=fails[:4])
+standin_sample_frames.prop = "C10"
+
+
+STANDINS = [standin_sweeps, standin_resolution, standin_resolve_after_edits, standin_flatten, standin_sample_frames]
 
 
 def _replay_own(ob, seed):
